@@ -49,6 +49,7 @@ type httpPhase struct {
 	Requests []httpReq `json:"requests"`
 	Main     []string  `json:"main"`
 	Clients  int       `json:"clients"`
+	Blocking bool      `json:"blocking"` // the script calls the blocking serve: it is evaluated on a goroutine of its own and never returns
 }
 
 type req struct {
@@ -56,6 +57,7 @@ type req struct {
 	Progs  []string   `json:"progs"`
 	Rounds []round    `json:"rounds"`
 	HTTP   *httpPhase `json:"http"`
+	HTTP2  *httpPhase `json:"http2"`
 }
 
 type httpRes struct {
@@ -76,6 +78,7 @@ type resp struct {
 	Phase1 []string   `json:"phase1"`
 	Rounds []roundRes `json:"rounds"`
 	HTTP   *httpRes   `json:"http,omitempty"`
+	HTTP2  *httpRes   `json:"http2,omitempty"`
 }
 
 func evalIn(env *object.Env, src string) (out string) {
@@ -129,7 +132,12 @@ func runHTTP(global *object.Env, h *httpPhase) *httpRes {
 	port := l.Addr().(*net.TCPAddr).Port
 	l.Close()
 	env := object.NewEnclosedEnv(global)
-	out.Start = evalIn(env, strings.ReplaceAll(h.Script, "@PORT@", strconv.Itoa(port)))
+	if h.Blocking {
+		go evalIn(env, strings.ReplaceAll(h.Script, "@PORT@", strconv.Itoa(port)))
+		out.Start = "val:blocking"
+	} else {
+		out.Start = evalIn(env, strings.ReplaceAll(h.Script, "@PORT@", strconv.Itoa(port)))
+	}
 	if !strings.HasPrefix(out.Start, "val:") {
 		return out
 	}
@@ -173,6 +181,10 @@ func runHTTP(global *object.Env, h *httpPhase) *httpRes {
 	client := &http.Client{Timeout: 20 * time.Second}
 	for _, r := range h.Requests {
 		out.Ref = append(out.Ref, send(client, port, r))
+	}
+	if h.Blocking {
+		out.Stop = "val:nil" // the blocking server ends with the process
+		return out
 	}
 	out.Stop = evalIn(env, "stop()")
 	return out
@@ -248,6 +260,9 @@ func main() {
 	}
 	if rq.HTTP != nil {
 		rs.HTTP = runHTTP(global, rq.HTTP)
+	}
+	if rq.HTTP2 != nil {
+		rs.HTTP2 = runHTTP(global, rq.HTTP2)
 	}
 	b, _ := json.Marshal(rs)
 	fmt.Println(string(b))
